@@ -65,7 +65,10 @@ def cases(tier, seed):
                     tier == "thorough" or h == 3):
                 yield {"desc": desc, "farmer": far, "kind": kind, "n": n,
                        "mode": mode, "req": req, "shuffle": shuffle,
-                       "reload": rl, "policy": pol, "preround": True}
+                       "reload": rl, "policy": pol,
+                       "preround": 1 + core.pick(
+                           [desc, far, kind, n, mode, req, shuffle, rl], 2)
+                       if far != "sampler" else 1}
             if far != "sampler" and kind != "cases" and rl % 2 == 0 and (
                     tier == "thorough" or h == 0):
                 yield {"desc": desc, "farmer": far, "kind": kind, "n": n,
@@ -302,7 +305,10 @@ def check_case(case):
         else:
             pcases = [tuple(x + 50 for x in c) for c in dcases]
         builtins._xv_draws = {}
-        direct(twin, dcombos=pcombos, dcases=pcases)
+        if pre == 1:
+            direct(twin, dcombos=pcombos, dcases=pcases)
+        # (pre == 2: the earlier round is sown and grown but never reaped -
+        # its results are still lying there when the crop is sown again)
         twin_draws = dict(builtins._xv_draws)
     late = far.startswith("harv") and case.get("late")
     if late:
@@ -341,7 +347,9 @@ def check_case(case):
             else:
                 crop.sow_cases(fn_args, pcases, verbosity=0)
             crop.grow_missing(verbosity=0)
-            if far == "runner-df":
+            if pre == 2:
+                pass
+            elif far == "runner-df":
                 crop.reap_runner(crop.farmer, to_df=True)
             else:
                 crop.reap()
